@@ -12,8 +12,8 @@ import (
 	"os"
 	"regexp"
 	"runtime/debug"
-	"sort"
 	"runtime/pprof"
+	"sort"
 	"strconv"
 	"strings"
 	"sync"
@@ -42,7 +42,7 @@ import (
 
 const (
 	tick       = 2 * time.Millisecond
-	watchdog   = 1000 * time.Millisecond
+	watchdog   = 2500 * time.Millisecond
 	unbindWin  = 120 * time.Millisecond
 	closeWin   = 12 * time.Millisecond
 	twccURI    = "http://www.ietf.org/id/draft-holmer-rmcat-transport-wide-cc-extensions-01"
@@ -92,6 +92,9 @@ type script struct {
 	ChainObs []int `json:"chain_obs,omitempty"`
 
 	nSync, nAsync int
+	// census runs (options.go): called right after the constructor returned / after step i was observed
+	afterNew  func()
+	afterStep func(i int)
 }
 
 // ---- interceptor kinds ----
@@ -673,6 +676,9 @@ func runScript(sc *script) {
 	if err != nil {
 		panic(err)
 	}
+	if sc.afterNew != nil {
+		sc.afterNew()
+	}
 	r := &runner{k: k, ic: ic, sc: sc, readers: map[uint32]interceptor.RTPReader{}, writers: map[uint32]interceptor.RTPWriter{},
 		seq: map[uint32]uint16{}, retAt: map[int]time.Time{}}
 	sc.Mask = 0
@@ -751,6 +757,10 @@ func runScript(sc *script) {
 			parked = append(parked, parkedCall{step: i, done: done})
 		}
 		if obs[i][0] != 0 {
+			if sc.afterStep != nil {
+				sc.afterStep(i)
+			}
+
 			continue
 		}
 		retMu.Lock()
@@ -787,6 +797,9 @@ func runScript(sc *script) {
 				}
 				r.awaitEmissions(u.x, u.ret, u.allowed)
 			}
+		}
+		if sc.afterStep != nil {
+			sc.afterStep(i)
 		}
 	}
 	// parked calls: released by a later step (1) or never (2)
@@ -857,14 +870,14 @@ type gateResult struct {
 	Name          string `json:"name"`
 	Mode          int    `json:"mode"`
 	Members       []int  `json:"members,omitempty"` // chain kinds built for the run (iid >= 14)
-	Entered       bool   `json:"entered"`         // a goroutine of the interceptor was caught inside a write
-	ClosedEarly   bool   `json:"closed_early"`    // Close returned while that write was still in progress
-	Close2Early   bool   `json:"close2_early"`    // the second Close returned while that write was still in progress
-	LateWrites    int    `json:"late_writes"`     // writes of goroutines of the interceptor that completed after a Close had returned
-	AliveAtReturn int    `json:"alive_at_return"` // goroutines started by the interceptor that were alive when the first Close returned
-	CloseHang     bool   `json:"close_hang"`      // a Close did not return after the write completed
-	UnbindSlow    bool   `json:"unbind_slow"`     // an Unbind returned only after the writer let the held write go
-	UnbindHang    bool   `json:"unbind_hang"`     // an Unbind never returned
+	Entered       bool   `json:"entered"`           // a goroutine of the interceptor was caught inside a write
+	ClosedEarly   bool   `json:"closed_early"`      // Close returned while that write was still in progress
+	Close2Early   bool   `json:"close2_early"`      // the second Close returned while that write was still in progress
+	LateWrites    int    `json:"late_writes"`       // writes of goroutines of the interceptor that completed after a Close had returned
+	AliveAtReturn int    `json:"alive_at_return"`   // goroutines started by the interceptor that were alive when the first Close returned
+	CloseHang     bool   `json:"close_hang"`        // a Close did not return after the write completed
+	UnbindSlow    bool   `json:"unbind_slow"`       // an Unbind returned only after the writer let the held write go
+	UnbindHang    bool   `json:"unbind_hang"`       // an Unbind never returned
 	NotClosed     bool   `json:"member_not_closed"` // chains: a member received fewer (or more) Close calls than Chain.Close was called
 	ErrLost       bool   `json:"close_error_lost"`  // chains: Chain.Close did not return the failing member's error
 	Panic         string `json:"panic,omitempty"`
@@ -1450,7 +1463,7 @@ func (sc *script) toCase(buckets ...string) cq.Case {
 		}
 
 		return cq.Case{
-			Coq: cq.T(cq.Z(int64(sc.Iid)), cq.LZ(ms), cq.Z(int64(sc.Mask)), cq.L(ops), cq.L(obs), cq.Z(int64(sc.Leak)), cq.LZ(co)),
+			Coq:  cq.T(cq.Z(int64(sc.Iid)), cq.LZ(ms), cq.Z(int64(sc.Mask)), cq.L(ops), cq.L(obs), cq.Z(int64(sc.Leak)), cq.LZ(co)),
 			JSON: sc, Buckets: append(b, tagChain), Trivial: len(sc.Ops) < 2,
 		}
 	}
@@ -1514,12 +1527,18 @@ func main() {
 	}
 	add := func(iid int, ops []op, failw int, tag ...string) { addK(kinds[iid], ops, failw, tag...) }
 	variants = buildVariants()
+	optionKinds = buildOptionKinds()
+	var censusReplay *censusRun
 	replayGate, replayConc, replayGateMode, replayVid := -1, -1, 0, 0
 	var heldReplay, heldCorpus []heldJob
 	if o.Replay != "" {
 		var g gateResult
 		cq.LoadReplay(o.Replay, &g)
 		switch g.Special {
+		case "census":
+			censusReplay = &censusRun{}
+			cq.LoadReplay(o.Replay, censusReplay)
+			add(censusReplay.Iid, []op{{K: "bindw"}}, 0, "replay")
 		case "gate":
 			if len(g.Members) > 0 {
 				ensureChain(g.Iid, g.Members)
@@ -1688,6 +1707,30 @@ func main() {
 		}
 	}
 	t0 := time.Now()
+	// census runs (options.go): alone in the process, before the worker pools exist
+	var census []*censusRun
+	switch {
+	case censusReplay != nil:
+		for i := 0; i < 3; i++ {
+			census = append(census, runCensus(kindFor(censusReplay.Iid, censusReplay.Vid), censusReplay.COps))
+		}
+	case o.Replay == "" && (os.Getenv("C11_ONLY") == "" || os.Getenv("C11_ONLY") == "census"):
+		for _, k := range censusKinds() {
+			for _, s := range censusScripts() {
+				census = append(census, runCensus(k, s))
+			}
+		}
+	}
+	censusWall := time.Since(t0).Seconds()
+	if os.Getenv("C11_CENSUS_DUMP") != "" { // debugging aid
+		for _, c := range census {
+			fmt.Fprintln(os.Stderr, "CENSUS", c.Name, c.Iid, c.Vid, c.COps, c.Gs, c.Obs, c.Where)
+		}
+		if os.Getenv("C11_ONLY") == "census" {
+			fmt.Fprintln(os.Stderr, "census wall", censusWall)
+			os.Exit(0)
+		}
+	}
 	runAll(scs)
 	if f := os.Getenv("C11_HEAPPROF"); f != "" { // debugging aid
 		if w, err := os.Create(f); err == nil {
@@ -1902,6 +1945,11 @@ func main() {
 	}
 	if len(held) > 0 {
 		sets = append(sets, heldSet(held))
+	}
+	if len(census) > 0 {
+		sets = append(sets, censusSet(census))
+		extra["census_runs"] = len(census)
+		extra["census_wall_s"] = censusWall
 	}
 	cq.Write(o, "a script of at least two calls (a final Close is always appended); a gated run with a write in progress", sets, extra, fails)
 }
